@@ -144,6 +144,10 @@ func c05Stream(c *sim.Ctx) (stream []byte, plans []string) {
 			// thousands of tiny list elements: where super-linear work would show
 			f, fm = ref.Encode(gen.Bulk(t, c.Thorough))
 			c.Count("probe.bulk-list-frame")
+		} else if t.Bool(1, 24) {
+			// hundreds of strings of 1..2 KiB
+			f, fm = ref.Encode(gen.BulkMedium(t))
+			c.Count("probe.bulk-of-kilobyte-strings")
 		} else if t.Bool(1, 16) {
 			// one single-valued property repeated thousands of times
 			f, fm = ref.Encode(gen.BulkDup(t, c.Thorough))
